@@ -20,17 +20,24 @@ class ToyMulti(chi.MechanisticModel):
         super(ToyMulti, self).__init__()
         self._n = int(n_out)
         self._s = False
+        self._sel = None         # indices of parameters with sensitivities
         self.calls = []          # tap: (parameters, times, with_sens)
         self.tap = False
 
     def copy(self):
         m = ToyMulti(self._n)
         m._s = self._s
+        m._sel = None if self._sel is None else list(self._sel)
         m.tap = self.tap
         return m
 
     def enable_sensitivities(self, enabled, parameter_names=None):
         self._s = bool(enabled)
+        self._sel = None
+        if self._s and parameter_names is not None:
+            names = self.parameters()
+            self._sel = [i for i, n in enumerate(names)
+                         if n in list(parameter_names)]
 
     def has_sensitivities(self):
         return self._s
@@ -63,6 +70,8 @@ class ToyMulti(chi.MechanisticModel):
             s[:, o, o] = e
             s[:, o, n] = -t * a[o] * e
             s[:, o, n + 1] = t * (o + 1)
+        if self._sel is not None:
+            s = s[:, :, self._sel]
         return y, s
 
 
